@@ -898,7 +898,23 @@ impl gen::CELVisitorCompat<'_> for Parser {
     fn visit_Bytes(&mut self, ctx: &BytesContext<'_>) -> Self::Return {
         let token = ctx.tok.as_deref().expect("Has to have bytes!");
         let string = ctx.get_text();
-        match parse::parse_bytes(&string[2..string.len() - 1]) {
+        // Strip the `b` prefix, an optional raw marker and the single or triple quotes.
+        let text = &string[1..];
+        let (raw, text) = match text.strip_prefix(['r', 'R']) {
+            Some(text) => (true, text),
+            None => (false, text),
+        };
+        let quote = if text.len() >= 6 && (text.starts_with("\"\"\"") || text.starts_with("'''")) {
+            3
+        } else {
+            1
+        };
+        let body = &text[quote..text.len() - quote];
+        match if raw {
+            Ok(body.as_bytes().to_vec())
+        } else {
+            parse::parse_bytes(body)
+        } {
             Ok(bytes) => self
                 .helper
                 .next_expr(token, Expr::Literal(Val::Bytes(bytes))),
